@@ -701,6 +701,17 @@ func (c *Context) onSupervise(supervisionContext *supervisionContext) {
 	// 记录该 Actor 接管本次故障的后续处理
 	c.Logger().Debug("supervision: takeover", log.String("id", supervisionContext.ID()), log.String("supervisor_path", c.ref.GetPath()))
 	supervise(c, supervisionContext)
+
+	// 正在停止（或已成为僵尸）的监督者不再作出监管决策：它的子 Actor 终将随其一同停止。失败的子 Actor 的邮箱已被暂停，
+	// 此前以毒丸方式下发给它的 Kill 无法被处理，而升级后的决策又会被停止中的监督者忽略，其停止流程将永远无法闭环：
+	// 直接终止失败的子 Actor（系统消息不受邮箱暂停影响）
+	if atomic.LoadInt32(&c.state) != running {
+		for _, child := range supervisionContext.Child() {
+			c.Kill(child, false, "supervisor stopping")
+		}
+		return
+	}
+
 	var (
 		targets  vivid.ActorRefs
 		decision vivid.SupervisionDecision
